@@ -3,6 +3,7 @@ CONSTANTS
   GWc = 4
   Mode = "late_snapshot"
   DebugAsserts = TRUE
+  Zst = FALSE
 SPECIFICATION Spec
 INVARIANTS TypeOK CursorExact NoErr
 CHECK_DEADLOCK FALSE
